@@ -334,3 +334,86 @@ func init() {
 }
 
 var _ *packages.Package
+
+// PRNGSHARE — a shallow copy never draws from the generator of the original.
+//
+// ShallowCopy promises an object that can be used concurrently with the receiver. A pseudo-random generator is a
+// stateful stream: handing the receiver's generator (`enc.prng`) to the samplers of the copy makes the two objects race
+// on its state, and makes the output of each depend on how the other is used. Every ShallowCopy of the repository
+// creates a fresh generator (sampling.NewPRNG) or goes through a constructor that does.
+//
+// Rule: in a ShallowCopy method no expression rooted at the receiver whose type is a generator of utils/sampling
+// (PRNG, *KeyedPRNG) is passed to a call, stored in a field or placed in a literal.
+func scanPrngShare(c *core.Ctx) []ob {
+	var out []ob
+	n := 0
+	isPRNG := func(t types.Type) bool {
+		nm := namedOf(t)
+		return nm != nil && nm.Obj().Pkg() != nil && strings.HasSuffix(nm.Obj().Pkg().Path(), "utils/sampling") && strings.Contains(nm.Obj().Name(), "PRNG")
+	}
+	c.FuncDecls(func(pk *packages.Package, file *ast.File, fd *ast.FuncDecl) {
+		if fd.Body == nil || fd.Recv == nil || fd.Name.Name != "ShallowCopy" || fileIsTestSupport(c.Program, fd.Pos()) {
+			return
+		}
+		info := pk.TypesInfo
+		recv := recvObj(info, fd)
+		if recv == nil {
+			return
+		}
+		fkey := core.FuncKey(pk, fd)
+		n++
+		var bad ast.Expr
+		check := func(e ast.Expr) {
+			e = unparen(e)
+			sel, ok := e.(*ast.SelectorExpr)
+			if !ok || bad != nil {
+				return
+			}
+			if r := rootIdent(sel); r == nil || info.Uses[r] != types.Object(recv) {
+				return
+			}
+			if t := info.TypeOf(sel); t != nil && isPRNG(t) {
+				bad = e
+			}
+		}
+		ast.Inspect(fd.Body, func(x ast.Node) bool {
+			switch v := x.(type) {
+			case *ast.CallExpr:
+				for _, a := range v.Args {
+					check(a)
+				}
+			case *ast.KeyValueExpr:
+				check(v.Value)
+			case *ast.AssignStmt:
+				for _, r := range v.Rhs {
+					check(r)
+				}
+			}
+			return true
+		})
+		key := "PRNGSHARE:" + fkey
+		props := append([]string{"C10"}, copyfProps(core.ShortPkg(pk.PkgPath), core.RecvTypeName(fd))...)
+		if bad != nil {
+			out = append(out, withProps(violOb("PRNGSHARE", key, c.Rel(bad.Pos()), fmt.Sprintf("%s hands the receiver's generator %s to the copy: original and copy draw from one stateful stream (data race between the two, and the randomness of each depends on the use of the other)", fkey, exprString(bad))), props...))
+		} else {
+			out = append(out, withProps(okOb("PRNGSHARE", key, c.Rel(fd.Pos()), "the copy does not receive the receiver's generator", true), props...))
+		}
+	})
+	c.Stats["prngshare_copies"] = n
+	return out
+}
+
+func init() {
+	core.Register(&core.Rule{Name: "PRNGSHARE", Wide: true, Props: []string{"C10", "C17"},
+		Doc: "in a ShallowCopy method no generator of utils/sampling rooted at the receiver (enc.prng) is passed to a call, stored in a field or placed in a literal: the copy draws from a generator of its own",
+		Run: func(c *core.Ctx) []ob {
+			out := scanPrngShare(c)
+			for _, o := range core.Floor("PRNGSHARE", nil, "ShallowCopy methods", c.Stats["prngshare_copies"], 24) {
+				out = append(out, withProps(o, "C10"))
+			}
+			for _, o := range control(c, "PRNGSHARE", scanPrngShare, "(fxDrawer).ShallowCopy") {
+				out = append(out, withProps(o, "C10"))
+			}
+			return out
+		}})
+}
